@@ -16,6 +16,8 @@ void inst(gray8_view_t const& g, rgb8_view_t const& c, gray8s_view_t const& gs, 
   auto s1 = h3.sub_histogram<0, 2>(); auto s2 = h3.sub_histogram<0>(std::make_tuple(1, 0, 0), std::make_tuple(5, 0, 0)); (void)s1; (void)s2;
   h1.normalize(); h3.normalize(); (void)h1.sum();
   h1.fill(gs, 3); h3.fill(pl, 2); auto s3 = h3.sub_histogram<0, 1>(std::make_tuple(1, 1, 0), std::make_tuple(3, 3, 0)); (void)s3;
+  // keys built from a sub-selection of the channels (an axis index may exceed the number of axes)
+  histogram<int, int> h2; h1.fill<2>(c, 2); h2.fill<2, 0>(c, 4); h2.fill<1, 2>(pl, 2); fill_histogram<2>(c, h1, 2);
   std::vector<int> hv; std::array<int, 64> ha; std::map<int, int> hm;
   fill_histogram(g, hv); fill_histogram(g, hv, true); fill_histogram(g, ha); fill_histogram(g, hm, true);
   std::vector<long> hv2; std::array<long, 16> ha2; std::map<long, long> hm2;
